@@ -214,13 +214,23 @@ impl Outcome {
 /// Counts distinct 64-bit digests (per thread, merged afterwards).
 #[derive(Default, Clone)]
 pub struct Distinct(pub std::collections::HashSet<u64>);
+/// The set is capped (memory): beyond the cap the count is a lower bound.
+pub const DISTINCT_CAP: usize = 4_000_000;
+
 impl Distinct {
     #[inline]
     pub fn add(&mut self, d: u64) {
-        self.0.insert(d);
+        if self.0.len() < DISTINCT_CAP {
+            self.0.insert(d);
+        }
     }
     pub fn merge(&mut self, o: Distinct) {
-        self.0.extend(o.0);
+        for d in o.0 {
+            if self.0.len() >= 4 * DISTINCT_CAP {
+                break;
+            }
+            self.0.insert(d);
+        }
     }
     pub fn len(&self) -> usize {
         self.0.len()
